@@ -40,6 +40,23 @@ def writer(P: Project) -> Tuple[FuncInfo, ast.AsyncFor]:
 
 
 def router(P: Project) -> FuncInfo:
+    # by role first: the method the per-message function (the one that parses a line into a message) hands the message
+    # to, and from which a send on the incoming stream is reached — directly or through delivery helpers of its own
+    from ..roles import self_closure
+
+    cl_ = client(P)
+    ms_ = P.methods(cl_)
+    direct = {f.name for f in ms_.values() if any(isinstance(x, ast.Call) and call_name(x) in incoming_send_calls(P, cl_) for x in walk_local(f.node))}
+    parsers = [f for f in ms_.values() if any(isinstance(x, ast.Call) and call_name(x).split(".")[-1] == "parse_message" for x in walk_local(f.node))]
+    cands = set()
+    for p_ in parsers:
+        for x in walk_local(p_.node):
+            if isinstance(x, ast.Call) and call_name(x).startswith("self.") and call_name(x)[5:] in ms_ and x.args:
+                g = ms_[call_name(x)[5:]]
+                if g is not p_ and set(self_closure(P, cl_, g)) & direct:
+                    cands.add(g.name)
+    if len(cands) == 1:
+        return ms_[next(iter(cands))]
     c = []
     for f in P.methods(client(P)).values():
         if any(isinstance(x, ast.Call) and call_name(x) in incoming_send_calls(P, client(P)) for x in walk_local(f.node)):
